@@ -296,6 +296,10 @@ class World:
                 if name in ("linalg.norm",):
                     return Sink()
                 return xsparse.sparse_hook(fn, args, kwargs)
+            if tag in ("import:scipy.spatial.KDTree", "import:scipy.spatial.cKDTree"):
+                from .props.c08 import _ExactKDTree
+
+                return _ExactKDTree(args[0])
         return NotImplemented
 
     # -- object protocol -----------------------------------------------------------------------------------------------
